@@ -836,7 +836,8 @@ __yd_diff(dt_yd_t d1, dt_yd_t d2)
 	/* add carry */
 	if (tgtd < 0) {
 		tgty--;
-		tgtd += 365 + ((__leapp(d2.y)) && d2.d >= 60);
+		tgtd += 365 + ((__leapp(d2.y) && d2.d >= 60) ||
+			       (__leapp(d2.y - 1U) && d1.d < 60));
 	}
 
 	/* fill in the results */
